@@ -480,6 +480,10 @@ func genWireDict(t *rapid.T) refmodel.BV {
 		default:
 			n := rapid.SampledFrom(lens).Draw(t, label+".len")
 			k := rapid.IntRange(0, 3).Draw(t, label+".mult")
+			if uniformInt(t, 12, label+".long") == 0 {
+				// long compact lists: counts on and around powers of two and far beyond any reply seen in practice
+				k = []int{8, 9, 16, 31, 64, 100, 127, 128, 129, 130, 200, 255, 256, 257, 700}[uniformInt(t, 15, label+".longmult")]
+			}
 			d := rapid.IntRange(-1, 1).Draw(t, label+".delta")
 			l := n*k + d
 			if rapid.Bool().Draw(t, label+".exact") {
@@ -672,7 +676,29 @@ func genC15c(t *rapid.T) CompactCase {
 			l = 0
 		}
 	}
-	return CompactCase{Decoder: name, Data: genBytesN(t, l, "data")}
+	if uniformInt(t, 10, "long") == 0 {
+		// long lists: entry counts on and around powers of two
+		l = size * []int{31, 64, 100, 127, 128, 129, 130, 200, 255, 256, 257, 1000}[uniformInt(t, 12, "longk")]
+	}
+	data := genBytesN(t, l, "data")
+	if (size == 18 || size == 38) && rapid.Bool().Draw(t, "special-ips") {
+		// 16-byte addresses with structure random bytes never have: v4-mapped, v4-compatible, unspecified, all ones
+		for off := size - 18; off+18 <= len(data); off += size {
+			switch uniformInt(t, 6, "ipkind") {
+			case 0:
+				copy(data[off:], []byte{0, 0, 0, 0, 0, 0, 0, 0, 0, 0, 0xff, 0xff})
+			case 1:
+				copy(data[off:], make([]byte, 12))
+			case 2:
+				copy(data[off:], make([]byte, 16))
+			case 3:
+				for i := 0; i < 16; i++ {
+					data[off+i] = 0xff
+				}
+			}
+		}
+	}
+	return CompactCase{Decoder: name, Data: data}
 }
 
 func runC15c(s CompactCase, c *kit.Case) (v *kit.Violation) {
